@@ -13,7 +13,21 @@ import (
 func (m *Machine) unop(fr *frame, in *ssa.UnOp, x Value) Value {
 	switch in.Op {
 	case token.MUL:
-		return m.load(fr, x)
+		v := m.load(fr, x)
+		// *(*[N]byte)(unsafe.Pointer(&word)): the bytes of an integer in memory order (little endian, as on the
+		// platforms the code is checked for)
+		if t, ok := v.(T); ok {
+			if at, ok := in.Type().Underlying().(*types.Array); ok {
+				if eb, ok := at.Elem().Underlying().(*types.Basic); ok && (eb.Kind() == types.Uint8 || eb.Kind() == types.Int8) && int(at.Len())*8 == t.W {
+					out := make(Array, at.Len())
+					for i := range out {
+						out[i] = m.F.Extract(t, 8*i+7, 8*i)
+					}
+					return out
+				}
+			}
+		}
+		return v
 	case token.NOT:
 		if t, ok := x.(T); ok {
 			return m.F.Not(t)
